@@ -30,6 +30,10 @@ func RenderSpecHTML(s *core.Spec, out io.Writer) error {
 
 		// This inner function is a neat way to process each node. Encapsulation, baby!
 		fn := func(id string, node *core.Node) {
+			if node == nil {
+				// "done:" with nothing under it.
+				node = &core.Node{}
+			}
 			// For each node, we're creating a row in our HTML table.
 			f(`<tr class="node"><td><span id="%s" class="nodeName">%s</span></td><td>`, id, id)
 
